@@ -140,8 +140,11 @@ int main(int argc, char **argv) {
         unsigned char out[256], out2[256], out3[256], served[512]; size_t l1, l2, l3;
         make_script(gi, variant + (int) (seed % 5));
         run_gen(gi, out, &l1); size_t used = script_pos; int nr = nreq; size_t rq[256]; memcpy(rq, reqs, sizeof rq); memcpy(served, script, used);
+        /* life cycle of the installed source: closing or stirring the generator between two uses does not replace the source the
+         * caller installed - the replay must still be served by it */
+        if (variant == 1) randombytes_close(); else if (variant == 2) randombytes_stir();
         run_gen(gi, out2, &l2);
-        int same = l1 == l2 && memcmp(out, out2, l1) == 0 && nreq == nr;
+        int same = l1 == l2 && memcmp(out, out2, l1) == 0 && nreq == nr && !strcmp(randombytes_implementation_name(), "verif-scripted");
         for (size_t i = 0; i < used; i++) script[i] ^= 0x5c;
         if (strstr(gens[gi].name, "scalar_random")) { for (size_t i = 0; i < used; i++) script[i] ^= 0x5c; script[32 * (size_t) (nr - 1) + 3] ^= 0x10; }
         run_gen(gi, out3, &l3);
